@@ -2045,9 +2045,9 @@ func marshalTuple(info TypeInfo, value interface{}) ([]byte, error) {
 				return nil, err
 			}
 
-			n := len(data)
-			buf = appendInt(buf, int32(n))
-			buf = append(buf, data...)
+			// a nil encoding is CQL null (length -1), e.g. for typed nil
+			// pointers and nil collections
+			buf = appendBytes(buf, data)
 		}
 
 		return buf, nil
@@ -2077,9 +2077,9 @@ func marshalTuple(info TypeInfo, value interface{}) ([]byte, error) {
 				return nil, err
 			}
 
-			n := len(data)
-			buf = appendInt(buf, int32(n))
-			buf = append(buf, data...)
+			// a nil encoding is CQL null (length -1), e.g. for typed nil
+			// pointers and nil collections
+			buf = appendBytes(buf, data)
 		}
 
 		return buf, nil
@@ -2103,9 +2103,9 @@ func marshalTuple(info TypeInfo, value interface{}) ([]byte, error) {
 				return nil, err
 			}
 
-			n := len(data)
-			buf = appendInt(buf, int32(n))
-			buf = append(buf, data...)
+			// a nil encoding is CQL null (length -1), e.g. for typed nil
+			// pointers and nil collections
+			buf = appendBytes(buf, data)
 		}
 
 		return buf, nil
